@@ -3,7 +3,7 @@ CONSTANTS
   Shapes <- ModelShapes
   Decoder = "stateful"
   Cache = "refresh"
-  Limit = 0
+  Limit = 64
 INVARIANTS TypeOK PrefixOK CompleteOK Quiescent
 PROPERTIES AppendOnly
 VIEW View
